@@ -17,6 +17,9 @@ spectators. The host's side is `C06_host_rows` (Proofs/SpecHost.lean): what
 `send_confirmed_inputs_to_spectators` offers.
 -/
 import GgrsModel.Model.Inventory
+import GgrsModel.Model.Sites.SpectatorSession
+import GgrsModel.Model.Sites.P2pSession
+import GgrsModel.Model.Sites.Protocol
 import GgrsModel.Model.Spectator
 import GgrsModel.Proofs.Monad
 import GgrsModel.Proofs.SpecRing
